@@ -2,6 +2,7 @@ package main
 
 import (
 	"fmt"
+	"time"
 
 	"github.com/skx/evalfilter/v2/verifsim"
 )
@@ -28,7 +29,8 @@ func (p *simtest) RandomRuns(tier string) int {
 func (p *simtest) Run(c *verifsim.Chooser, st *Stats, render bool) *Outcome {
 	o := &Outcome{}
 	// (deadlocking programs leave parked threads behind: keep them rare)
-	scenario := []int{0, 1, 2, 4, 5, 6, 0, 1, 2, 4, 5, 6, 0, 1, 2, 4, 5, 6, 1, 2, 5, 6, 0, 4, 3}[c.Intn(25)]
+	scenario := []int{0, 1, 2, 4, 5, 6, 7, 8, 9, 10, 0, 1, 2, 4, 5, 6, 7, 8, 9, 10, 0, 1, 2, 4, 5, 6, 1, 2, 5, 6, 0, 4, 3}[c.Intn(33)]
+	verifsim.ResetTime()
 	s := verifsim.NewSched(c, 200000)
 	name := ""
 	expectDeadlock := false
@@ -201,6 +203,104 @@ func (p *simtest) Run(c *verifsim.Chooser, st *Stats, render bool) *Outcome {
 			}
 			if s.Deadlock || finished != n {
 				return fmt.Sprintf("deadlock=%v finished=%d of %d", s.Deadlock, finished, n)
+			}
+			return ""
+		}
+	case 7: // Once: the function runs exactly once, nobody passes Do before it has finished
+		name = "once"
+		var once verifsim.Once
+		ran, early := 0, 0
+		finished := false
+		for t := 0; t < 2+c.Intn(4); t++ {
+			s.Go(func() {
+				once.Do(func() {
+					ran++
+					verifsim.Yield(verifsim.YHost, 0)
+					verifsim.Yield(verifsim.YHost, 0)
+					finished = true
+				})
+				if !finished {
+					early++
+				}
+			})
+		}
+		check = func() string {
+			if ran != 1 || early != 0 {
+				return fmt.Sprintf("once ran %d times, %d callers got past Do before it had finished", ran, early)
+			}
+			return ""
+		}
+	case 8: // goroutines started from inside a task, WaitGroup
+		name = "spawn and waitgroup"
+		var wg verifsim.WaitGroup
+		var mu verifsim.Mutex
+		n := 1 + c.Intn(5)
+		sum, after := 0, -1
+		s.Go(func() {
+			for i := 1; i <= n; i++ {
+				i := i
+				wg.Add(1)
+				verifsim.Go(func() {
+					defer wg.Done()
+					verifsim.Yield(verifsim.YHost, 0)
+					mu.Lock()
+					sum += i
+					mu.Unlock()
+				})
+			}
+			wg.Wait()
+			after = sum
+		})
+		check = func() string {
+			if after != n*(n+1)/2 {
+				return fmt.Sprintf("after Wait the sum was %d, want %d (%d spawned)", after, n*(n+1)/2, s.Spawned)
+			}
+			if s.Spawned != n {
+				return fmt.Sprintf("%d goroutines scheduled, want %d", s.Spawned, n)
+			}
+			return ""
+		}
+	case 9: // timers: callbacks in the order of their instants, After wakes a waiting task, time jumps when all wait
+		name = "timers"
+		var mu verifsim.Mutex
+		var order []int
+		d1, d2 := time.Duration(1+c.Intn(50))*time.Millisecond, time.Duration(60+c.Intn(50))*time.Millisecond
+		got := false
+		stopped := false
+		s.Go(func() {
+			verifsim.AfterFunc(d2, func() { mu.Lock(); order = append(order, 2); mu.Unlock() })
+			verifsim.AfterFunc(d1, func() { mu.Lock(); order = append(order, 1); mu.Unlock() })
+			t3 := verifsim.AfterFunc(d1/2+1, func() { mu.Lock(); order = append(order, 3); mu.Unlock() })
+			stopped = t3.Stop()
+			start := verifsim.Now()
+			verifsim.ChanRecv(verifsim.After(d2 + time.Millisecond))
+			got = verifsim.Since(start) >= d2+time.Millisecond
+		})
+		check = func() string {
+			mu.Lock()
+			defer mu.Unlock()
+			if !got || !stopped || len(order) != 2 || order[0] != 1 || order[1] != 2 {
+				return fmt.Sprintf("timer callbacks ran in order %v (want [1 2]), After elapsed=%v, Stop=%v", order, got, stopped)
+			}
+			return ""
+		}
+	case 10: // a goroutine that never ends does not keep the simulation alive once the main task is done
+		name = "stop when the main task is done"
+		beats := 0
+		s.StopWhen = s.Go(func() {
+			verifsim.Go(func() {
+				for {
+					beats++
+					verifsim.Sleep(time.Millisecond)
+				}
+			})
+			for i := 0; i < 5; i++ {
+				verifsim.Yield(verifsim.YHost, 0)
+			}
+		})
+		check = func() string {
+			if s.Leftover != 1 {
+				return fmt.Sprintf("leftover=%d want 1", s.Leftover)
 			}
 			return ""
 		}
